@@ -101,6 +101,14 @@ AutBwd(A, L) ==
 AutActive(A, L) == [i \in 0..L |-> AutFwd(A, L)[i] \cap AutBwd(A, L)[i]]
 AutHasPath(A, L) == A.term[2] \in AutFwd(A, L)[L]
 
+(* AutOp.is_consistent(): mutual references between nodes and edges, terminals exist.  ein / eout: sets of edge ids per node *)
+AutConsistent(nodes, edges, term) ==
+    /\ \A n \in DOMAIN nodes : /\ \A e1 \in nodes[n].ein : e1 \in DOMAIN edges /\ edges[e1].dst = n
+                                 /\ \A e2 \in nodes[n].eout : e2 \in DOMAIN edges /\ edges[e2].src = n
+    /\ \A e \in DOMAIN edges : /\ edges[e].src \in DOMAIN nodes /\ edges[e].dst \in DOMAIN nodes
+                                 /\ e \in nodes[edges[e].src].eout /\ e \in nodes[edges[e].dst].ein
+    /\ term[1] \in DOMAIN nodes /\ term[2] \in DOMAIN nodes
+
 (* sum over all automaton paths of length L between the terminals (independent of the pruning) *)
 RECURSIVE AutPolyFrom(_, _, _, _)
 AutPolyFrom(A, n, i, L) ==      \* i sites consumed so far
